@@ -38,7 +38,7 @@ def alphabet():
     ]
 
 
-OPS = ["upd", "addb-doc", "addb-noid", "addb-dup", "addb-dup-string", "addb-bundle", "addb-bundle-as", "addb-unresolvable", "flat"]
+OPS = ["upd", "addb-doc", "addb-noid", "addb-dup", "addb-dup-string", "addb-bundle", "addb-bundle-as", "addb-unresolvable", "read-then-assert-type", "flat"]
 
 
 def to_model(doc):
@@ -165,6 +165,21 @@ class C09(spec.Spec):
                     # the requested identifier denotes nothing (its prefix is declared nowhere): no identifier
                     expect_refusal = True
                     d.add_bundle(ProvBundle(records=o.get_records()), "nosuchprefix9:b")
+                elif op == "read-then-assert-type":
+                    # every record of d is read (hashed, compared, its attributes listed), then one of them gets a
+                    # further type through add_asserted_type(); what is copied later must include it
+                    recs = list(d.get_records())
+                    if not recs:
+                        continue
+                    for r in recs:
+                        hash(r), r == r, list(r.attributes), r.extra_attributes, r.formal_attributes
+                    d.flattened()
+                    from prov.constants import PROV
+                    recs[0].add_asserted_type(PROV["Plan"])
+                    t0, i0, a0 = M[0][0]
+                    pair = (PROV.uri + "type", ("qn", PROV.uri + "Plan"))
+                    if pair not in a0:
+                        M[0][0] = (t0, i0, tuple(a0) + (pair,))
                 elif op == "flat":
                     M = [M[0] + [r for rs in M[1].values() for r in rs], {}]
                     d = d.flattened()
